@@ -1,1 +1,151 @@
+(* C07 — Interrupting the solver at any moment still yields a valid solution.
+   "If the computation quota runs out at any moment - before construction, between two insertions, inside any search step - or
+    a positive time/generation limit is hit, the solver still returns normally with a solution that satisfies C01-C03, reporting
+    work not yet placed as unassigned. It never runs more generations than the configured maximum."
+   Model: Model/Evolution.v (+ the bookkeeping model Model/Homes.v of C02).  The quota is an ARBITRARY function nat -> bool of
+   the poll index; evaluation results, parent selection, ruin steps, foreign polls and the wall clock are arbitrary oracles.
+   "valid" at this level = every job of the plan has exactly one home and `required` is drained (C02's invariant); feasibility (C01)
+   and reproducibility (C03) of what is returned are checked on every real document by the verified checker valid_b.  *)
 From VRP Require Import Base.Tac Model.Homes Proofs.HomesP Model.Evolution Proofs.EvolutionP.
+Local Open Scope nat_scope.
+
+(* -- clause "quota runs out at any moment (before construction, between two insertions) => returns, work not placed is unassigned":
+      the insertion loop, for EVERY quota oracle and every evaluator: returns, keeps the one-home invariant, leaves nothing pending,
+      makes no poll after the first one answered true, and applies at most one insertion per poll that answered false *)
+Theorem C07_process_total :
+  forall (jobs : list Z) (ev : nat -> hsol -> eres) (q : quota) (st : pstate),
+    ev_ok ev -> Inv jobs (p_sol st) ->
+    exists st', process ev q st = Some st'
+                /\ Inv jobs (p_sol st') /\ h_required (p_sol st') = []
+                /\ p_polls st <= p_polls st'
+                /\ (forall m, q m = true -> p_polls st <= m -> p_polls st' <= S m)
+                /\ p_ins st <= p_ins st'
+                /\ p_ins st' + p_polls st <= p_ins st + p_polls st'.
+Proof. intros jobs ev q st Hev. exact (process_total jobs ev q Hev st). Qed.
+
+(* every job of the plan is on exactly one route or reported unassigned exactly once, whenever the quota fired *)
+Theorem C07_process_every_job_one_home :
+  forall (jobs : list Z) (ev : nat -> hsol -> eres) (q : quota) (st st' : pstate),
+    ev_ok ev -> Inv jobs (p_sol st) -> process ev q st = Some st' ->
+    forall j, In j jobs ->
+      (count_occ Z.eq_dec (concat (h_routes (p_sol st'))) j = 1 /\ count_occ Z.eq_dec (reported_unassigned (p_sol st')) j = 0)
+      \/ (count_occ Z.eq_dec (concat (h_routes (p_sol st'))) j = 0 /\ count_occ Z.eq_dec (reported_unassigned (p_sol st')) j = 1).
+Proof. exact process_partition. Qed.
+
+(* -- "before construction": the quota is already true at the first poll: no insertion, routes untouched, everything pending
+      (and what was unassigned) is reported unassigned *)
+Theorem C07_process_quota_before_first_insertion :
+  forall (ev : nat -> hsol -> eres) (q : quota) (st : pstate),
+    q (p_polls st) = true ->
+    exists st', process ev q st = Some st'
+                /\ h_routes (p_sol st') = h_routes (p_sol st)
+                /\ p_ins st' = p_ins st
+                /\ p_polls st' <= S (p_polls st)
+                /\ h_required (p_sol st') = []
+                /\ (forall j, In j (h_unassigned (p_sol st')) <-> In j (h_unassigned (p_sol st)) \/ In j (h_required (p_sol st))).
+Proof. exact process_quota_first. Qed.
+
+(* -- "the solver still returns normally with a solution": EvolutionSimulator::run + Iterative::run + Solver::solve, for EVERY
+      quota oracle, under a positive generation limit (a configured time limit must not have expired before the first initial
+      solution): Ok(best), best has every job in exactly one home and nothing pending, and so has every individual of the population;
+      at most N + 1 generations; no generation starts once the quota has fired (k-th poll): at most k - 1 generations *)
+Theorem C07_evolve_returns_valid :
+  forall (cfg : econfig) (W : oracles) (q : quota) (N k : nat),
+    oracles_ok W ->
+    c_max_gen cfg = Some N -> 1 <= N -> 1 <= c_init_ops cfg -> 1 <= c_init_size cfg ->
+    (c_max_time cfg = true -> o_time W 0 = false /\ o_init_quota W 0 = false) ->
+    exists best st, evolve cfg W q = EOk best st
+                    /\ (Inv (c_jobs cfg) best /\ h_required best = [])
+                    /\ In best (s_pop st)
+                    /\ Forall (fun s => Inv (c_jobs cfg) s /\ h_required s = []) (s_pop st)
+                    /\ gens_run (s_tele st) <= S N
+                    /\ (fires_by q k -> gens_run (s_tele st) <= pred k)
+                    /\ length (t_evolution (s_tele st)) = gens_run (s_tele st).
+Proof.
+  intros cfg W q N k HW Hc HN Hops Hsize Ht.
+  exact (evolve_returns cfg W q HW N k Hc Hops Hsize (first_check_positive_limit cfg W N Hc HN Ht)).
+Qed.
+
+(* the harness' CountingQuota(k) is such a quota *)
+Theorem C07_counting_quota_fires : forall k, fires_by (counting_quota (Some k)) k.
+Proof. exact counting_fires_by. Qed.
+
+(* -- the documented errors: no initial operator; max_generations = 0 (outside the statement: "a positive limit"): always
+      "cannot find any solution", for every quota and every oracle *)
+Theorem C07_no_initial_operator_error :
+  forall cfg W q, c_init_ops cfg = 0 -> evolve cfg W q = EErr ErrNoInitialMethods.
+Proof. exact evolve_no_initial_operator. Qed.
+
+Theorem C07_zero_generations_error :
+  forall cfg W q, c_max_gen cfg = Some 0 -> 1 <= c_init_ops cfg -> evolve cfg W q = EErr ErrNoSolution.
+Proof. exact evolve_zero_generations. Qed.
+
+(* -- clause "It never runs more generations than the configured maximum":
+      FULL statement  generations_run <= N  is REFUTED on the faithful model: with nothing else stopping the run (quota never
+      fires, no time limit hit) exactly N + 1 generations are run for every N >= 1 (statistics.generation is the 0-based index
+      of the generation just finished and MaxGeneration tests `generation >= limit`); metrics.generations reports N *)
+Theorem C07_generations_run_exact :
+  forall (cfg : econfig) (W : oracles) (q : quota) (N : nat),
+    oracles_ok W ->
+    c_max_gen cfg = Some N -> 1 <= N -> 1 <= c_init_ops cfg -> 1 <= c_init_size cfg ->
+    (c_max_time cfg = true -> o_init_quota W 0 = false) ->
+    (forall n, q n = false) -> (forall t, o_time W t = false) ->
+    exists best st, evolve cfg W q = EOk best st /\ gens_run (s_tele st) = N + 1 /\ t_metric_gens (s_tele st) = N.
+Proof.
+  intros cfg W q N HW Hc HN Hops Hsize Ht Hq Htm.
+  destruct (evolve_generations_exact cfg W q HW N Hc HN Hops Hsize) as (best & st & E & Hg & Hm); [|exact Hq|exact Htm|].
+  - apply (first_check_positive_limit cfg W N Hc HN). intros H. split; [apply Htm|apply Ht; exact H].
+  - exists best, st. split; [exact E|]. split; [lia|exact Hm].
+Qed.
+
+Theorem C07_generations_bounded_refuted :
+  exists (cfg : econfig) (W : oracles) (q : quota) (N : nat) (best : hsol) (st : estate),
+    c_max_gen cfg = Some N /\ 1 <= N /\ evolve cfg W q = EOk best st /\ N < gens_run (s_tele st).
+Proof.
+  exists (mkC [0%Z; 1%Z] 1 (Some 1) false 4 4 0), (skip_oracles 0 []), (counting_quota None), 1.
+  eexists _, _. split; [reflexivity|]. split; [lia|]. split; [vm_compute; reflexivity|]. vm_compute. lia.
+Qed.
+
+(* the strongest true bound: never more than N + 1 generations, for every quota / clock / operator oracle *)
+Theorem C07_generations_bounded_partial :
+  forall (cfg : econfig) (W : oracles) (q : quota) (N : nat),
+    oracles_ok W ->
+    c_max_gen cfg = Some N -> 1 <= N -> 1 <= c_init_ops cfg -> 1 <= c_init_size cfg ->
+    (c_max_time cfg = true -> o_time W 0 = false /\ o_init_quota W 0 = false) ->
+    exists best st, evolve cfg W q = EOk best st /\ gens_run (s_tele st) <= N + 1.
+Proof.
+  intros cfg W q N HW Hc HN Hops Hsize Ht.
+  destruct (C07_evolve_returns_valid cfg W q N 0 HW Hc HN Hops Hsize Ht) as (best & st & E & _ & _ & _ & Hg & _).
+  exists best, st. split; [exact E|lia].
+Qed.
+
+(* -- "inside any search step": the inner loop of the decomposition search runs the inner search at least once and at most
+      repeat_count times, and exactly once when the quota is already reached *)
+Theorem C07_decompose_inner_bounds :
+  forall (q : quota) (inner : nat -> nat) (repeat polls done : nat),
+    let r := decompose_inner repeat q polls inner done in
+    done <= fst r <= done + repeat /\ (1 <= repeat -> S done <= fst r) /\ polls <= snd r.
+Proof. exact decompose_inner_bounds. Qed.
+
+Theorem C07_decompose_inner_quota_reached :
+  forall (q : quota) (inner : nat -> nat) (repeat polls done : nat),
+    (forall n, q n = true) -> 1 <= repeat -> fst (decompose_inner repeat q polls inner done) = S done.
+Proof. exact decompose_inner_reached. Qed.
+
+(* -- non-vacuity: the hypotheses are satisfiable (an evaluator that always inserts the first pending job; the oracles used by
+      the correspondence), and a concrete interruption between two insertions: 3 jobs, quota true from its 2nd poll on =>
+      1 job inserted, 2 reported unassigned, 2 polls *)
+Theorem C07_nonvacuous :
+  ev_ok (fun _ s => match h_required s with j :: _ => ESuccess 0 j | [] => EFailure None false false end)
+  /\ oracles_ok (skip_oracles 3 [2; 5])
+  /\ Inv [0%Z; 1%Z; 2%Z] (init [0%Z; 1%Z; 2%Z])
+  /\ run_process 3 (Some 2) = (1, 2, 2)
+  /\ run_process 3 (Some 0) = (0, 3, 1)
+  /\ run_process 3 None = (3, 0, 3)
+  /\ run_evolve 2 8 [6; 18; 4] (Some 17) = (0, 2, 1, 2, 35)
+  /\ run_evolve 2 8 [6; 18; 4] None = (0, 3, 2, 3, 40).
+Proof.
+  split; [|split; [|split; [apply homes_init|repeat split; vm_compute; reflexivity]]].
+  - intros i s. unfold eres_ok. cbv beta. destruct (h_required s) eqn:E; [exact I|left; reflexivity].
+  - split; intros; intros i s; exact I.
+Qed.
